@@ -87,6 +87,16 @@ fn cursor_abuse(src: &mut Src, ctx: &mut Ctx) -> CaseResult {
                 }
             }
         }
+        if n % 2 == 1 {
+            // reversing the abused cursor back in place, then using it
+            ctx.label("into_reversed_after_buf_mut");
+            let mut c2 = r.into_reversed();
+            let _ = ReadWords::<u16, Stack>::read(&mut c2);
+            let _ = ReadWords::<u16, Queue>::read(&mut c2);
+            let _ = WriteWords::write(&mut c2, 1);
+            let _ = (BoundedReadWords::<u16, Stack>::remaining(&c2), BoundedReadWords::<u16, Queue>::remaining(&c2), BoundedWriteWords::<u16>::space_left(&c2), Pos::pos(&c2));
+            return Ok(());
+        }
         // a coder on top of the abused backend
         let mut ans = AnsCoder::<u16, u32, _>::from_binary(r).unwrap_or_else(|e| match e {});
         let t = hcommon::gen_tab(src, 12, 0, 6);
@@ -126,6 +136,16 @@ fn cursor_abuse(src: &mut Src, ctx: &mut Ctx) -> CaseResult {
                     let _ = ReadWords::<u16, Stack>::read(&mut cl);
                 }
             }
+        }
+        if n % 2 == 1 {
+            // reversing the abused cursor in place, then using it
+            ctx.label("into_reversed_after_buf_mut");
+            let mut r = c.into_reversed();
+            let _ = ReadWords::<u16, Stack>::read(&mut r);
+            let _ = ReadWords::<u16, Queue>::read(&mut r);
+            let _ = WriteWords::write(&mut r, 1);
+            let _ = (BoundedReadWords::<u16, Stack>::remaining(&r), BoundedReadWords::<u16, Queue>::remaining(&r), BoundedWriteWords::<u16>::space_left(&r), Pos::pos(&r));
+            return Ok(());
         }
         let mut ans = AnsCoder::<u16, u32, _>::from_binary(c).unwrap_or_else(|e| match e {});
         let t = hcommon::gen_tab(src, 12, 0, 6);
